@@ -219,9 +219,10 @@ Fixpoint p_re (fuel : nat) (s : str) (alts : option re) (cur : re) (ncap : nat)
   | S f =>
       match s with
       | [] => Some (addalt alts cur, ncap, [])
-      | 41 :: _ => Some (addalt alts cur, ncap, s)
-      | 124 :: r => p_re f r (Some (addalt alts cur)) Eps ncap
       | c :: r =>
+          if c =? 41 then Some (addalt alts cur, ncap, s)
+          else if c =? 124 then p_re f r (Some (addalt alts cur)) Eps ncap
+          else
           let atom : option (re * nat * str) :=
             if c =? 40 then
               let '(capt, body) :=
@@ -264,16 +265,18 @@ Fixpoint p_re (fuel : nat) (s : str) (alts : option re) (cur : re) (ncap : nat)
           | Some (a, n, r1) =>
               let post : option (re * str * bool) :=
                 match r1 with
-                | 42 :: r2 => Some (Star a, r2, true)
-                | 43 :: r2 => Some (Cat a (Star a), r2, true)
-                | 63 :: r2 => Some (Alt a Eps, r2, true)
-                | 123 :: r2 =>
-                    match p_repeat r2 with
-                    | RepNone => Some (a, r1, false)
-                    | RepBad => None
-                    | Rep mn mx r3 => Some (mk_rep a mn mx, r3, true)
-                    end
-                | _ => Some (a, r1, false)
+                | [] => Some (a, r1, false)
+                | q :: r2 =>
+                    if q =? 42 then Some (Star a, r2, true)
+                    else if q =? 43 then Some (Cat a (Star a), r2, true)
+                    else if q =? 63 then Some (Alt a Eps, r2, true)
+                    else if q =? 123 then
+                      match p_repeat r2 with
+                      | RepNone => Some (a, r1, false)
+                      | RepBad => None
+                      | Rep mn mx r3 => Some (mk_rep a mn mx, r3, true)
+                      end
+                    else Some (a, r1, false)
                 end in
               match post with
               | None => None
